@@ -274,6 +274,103 @@ Proof.
   eapply Forall_impl; [|exact L]. intros k Hk. now apply leafy_finished.
 Qed.
 
+(* ---- totality: acyclic universe nesting and enough fuel ---- *)
+Lemma in_lookup_nodup {A} k (v : A) d : NoDup (map fst d) -> In (k, v) d -> lookup k d = Some v.
+Proof.
+  induction d as [|[k' v'] r IH]; simpl; intros Hnd H; [tauto|].
+  inversion Hnd as [|? ? Hk Hr]; subst. destruct H as [H|H].
+  - inversion H; subst. now rewrite Z.eqb_refl.
+  - destruct (k =? k')%Z eqn:E; [|auto]. apply Z.eqb_eq in E. subst k'.
+    elim Hk. apply in_map_iff. exists (k, v). auto.
+Qed.
+
+Lemma by_universe_univ d u k : NoDup (map fst d) -> In k (by_universe d u) ->
+  exists c, lookup k d = Some c /\ c_univ c = u.
+Proof.
+  unfold by_universe. intros Hnd H. apply in_map_iff in H. destruct H as [[k' c] [H1 H2]].
+  simpl in H1. subst k'. apply filter_In in H2. destruct H2 as [H2 H3]. simpl in H3.
+  exists c. split; [now apply in_lookup_nodup | now apply Z.eqb_eq].
+Qed.
+
+Lemma fill_elements_total key container : forall elems st,
+  Forall (fun k => lookup k (fst st) <> None) elems ->
+  exists r, fill_elements key container st elems = Ok r.
+Proof.
+  induction elems as [|e r IH]; intros [d next] H; simpl.
+  - eexists. reflexivity.
+  - inversion H as [|? ? He Hr]; subst. simpl in He.
+    destruct (lookup e d) as [ec|] eqn:Ee; [|now elim He].
+    match goal with |- context [fill_elements key container ?st r] => destruct (IH st) as [[st2 l2] E2] end.
+    + eapply Forall_impl; [|exact Hr]. intros k Hk. simpl in *. rewrite lookup_app.
+      destruct (lookup k d); [discriminate | now elim Hk].
+    + rewrite E2. eexists. reflexivity.
+Qed.
+
+Section Total.
+  Variable d0 : dict cell.
+  Variable rank : Z -> nat.
+  Hypothesis Hnd : NoDup (map fst d0).
+  Hypothesis Hpr : pristine d0.
+  (* a filled cell lies in a universe of higher rank than the one it is filled with *)
+  Hypothesis Hrank : forall k c u, lookup k d0 = Some c -> c_fill c = Some u ->
+                                   (rank u < rank (c_univ c))%nat.
+
+  Lemma flat_map_state_total (f : state -> Z -> res (state * list Z)) (g : Z -> res (list Z)) :
+    (forall st key st' ks, inv d0 (fst st) -> fresh st -> lookup key d0 <> None ->
+       f st key = Ok (st', ks) -> post d0 st st' ks /\ g key = Ok (map (head_of (fst st')) ks)) ->
+    forall l, (forall st key, In key l -> inv d0 (fst st) -> fresh st -> exists r, f st key = Ok r) ->
+      (forall k, In k l -> lookup k d0 <> None) ->
+      forall st, inv d0 (fst st) -> fresh st -> exists r, flat_map_state f st l = Ok r.
+  Proof.
+    intros Hspec. induction l as [|e r IH]; intros Htot Hl st Hinv Hfr; simpl.
+    - eexists. reflexivity.
+    - destruct (Htot st e (or_introl eq_refl) Hinv Hfr) as [[st1 l1] E1]. rewrite E1.
+      destruct (Hspec st e st1 l1 Hinv Hfr (Hl e (or_introl eq_refl)) E1) as [[I1 [F1 _]] _].
+      destruct (IH (fun st key Hk => Htot st key (or_intror Hk)) (fun k Hk => Hl k (or_intror Hk)) st1 I1 F1)
+        as [[st2 l2] E2].
+      rewrite E2. eexists. reflexivity.
+  Qed.
+
+  Lemma pot_fill_total : forall fuel st key c,
+    inv d0 (fst st) -> fresh st -> lookup key d0 = Some c -> (rank (c_univ c) < fuel)%nat ->
+    exists r, pot_fill fuel (by_universe d0) st key = Ok r.
+  Proof.
+    induction fuel as [|f IH]; intros st key c Hinv Hfr Hkey Hlt; [lia|].
+    cbn [pot_fill]. rewrite (proj1 Hinv _ _ Hkey).
+    destruct (c_fill c) as [u|] eqn:Ef; [|eexists; reflexivity].
+    pose proof (Hrank _ _ _ Hkey Ef) as Hr.
+    assert (Hsub : forall st0 e, In e (by_universe d0 u) -> inv d0 (fst st0) -> fresh st0 ->
+                     exists r, pot_fill f (by_universe d0) st0 e = Ok r).
+    { intros st0 e He Hi0 Hf0. destruct (by_universe_univ d0 u e Hnd He) as [ce [Hce Hu]].
+      apply (IH st0 e ce Hi0 Hf0 Hce). rewrite Hu. lia. }
+    destruct (flat_map_state_total (pot_fill f (by_universe d0)) (leaves f (by_universe d0) d0)
+                (pot_fill_spec d0 (by_universe d0) Hpr (by_universe_in d0) f)
+                (by_universe d0 u) Hsub (by_universe_in d0 u) st Hinv Hfr) as [[st1 elems] E1].
+    rewrite E1.
+    destruct (flat_map_state_spec d0 (pot_fill f (by_universe d0)) (leaves f (by_universe d0) d0)
+                (pot_fill_spec d0 (by_universe d0) Hpr (by_universe_in d0) f)
+                (by_universe d0 u) st st1 elems Hinv Hfr (by_universe_in d0 u) E1) as [[I1 [F1 [X1 L1]]] _].
+    apply fill_elements_total. eapply Forall_impl; [|exact L1]. intros k Hk. eapply leafy_lookup; eauto.
+  Qed.
+
+  (* with enough fuel the "treat FILL" loop returns *)
+  Theorem treat_fill_total : forall fuel next,
+    (forall k, lookup k d0 <> None -> (k <= next)%Z) ->
+    (forall k c, lookup k d0 = Some c -> (rank (c_univ c) < fuel)%nat) ->
+    exists r, treat_fill fuel d0 next = Ok r.
+  Proof.
+    intros fuel next Hfr Hfuel. unfold treat_fill.
+    apply (flat_map_state_total (pot_fill fuel (by_universe d0)) (leaves fuel (by_universe d0) d0)
+             (pot_fill_spec d0 (by_universe d0) Hpr (by_universe_in d0) fuel) (fill_keys d0)).
+    - intros st key Hk Hi Hf. destruct (lookup key d0) as [c|] eqn:E.
+      + apply (pot_fill_total fuel st key c Hi Hf E). eapply Hfuel; eauto.
+      + exfalso. eapply fill_keys_in; eauto.
+    - apply fill_keys_in.
+    - apply inv_init.
+    - exact Hfr.
+  Qed.
+End Total.
+
 (* ---- develop_lattice: the element cells of a lattice ---- *)
 (* what an element cell made from lattice cell [c] looks like: same material,
    density, importance, universe and (empty) provenance; no fill when the array
